@@ -146,6 +146,8 @@ pub fn vio_read_exact<S: VRead>(s: &mut S, buf: &mut [u8]) -> (r: std::io::Resul
         r is Err ==> old(s).pos() <= final(s).pos() <= old(s).pos() + smin(old(buf)@.len() as int, srem(old(s)) as int),
         srem(old(s)) < old(buf)@.len() ==> r is Err,
         final(s).nerr() >= old(s).nerr(),
+        // read_exact fails only when the source fails or ends too early
+        r is Err ==> (final(s).nerr() > old(s).nerr() || srem(old(s)) < old(buf)@.len()),
 { unimplemented!() }
 
 #[verifier::external_body]
@@ -155,6 +157,8 @@ pub fn vio_read_u8<S: VRead>(s: &mut S) -> (r: std::io::Result<u8>)
         r is Ok ==> srem(old(s)) >= 1 && final(s).pos() == old(s).pos() + 1 && r->Ok_0 == old(s).data()[old(s).pos() as int],
         r is Err ==> old(s).pos() <= final(s).pos() <= old(s).pos() + smin(1, srem(old(s)) as int),
         srem(old(s)) < 1 ==> r is Err,
+        final(s).nerr() >= old(s).nerr(),
+        r is Err ==> (final(s).nerr() > old(s).nerr() || srem(old(s)) < 1),
 { unimplemented!() }
 
 #[verifier::external_body]
@@ -164,6 +168,8 @@ pub fn vio_read_u32_le<S: VRead>(s: &mut S) -> (r: std::io::Result<u32>)
         r is Ok ==> srem(old(s)) >= 4 && final(s).pos() == old(s).pos() + 4 && r->Ok_0 == le_u32(old(s).data().subrange(old(s).pos() as int, old(s).pos() + 4int)),
         r is Err ==> old(s).pos() <= final(s).pos() <= old(s).pos() + smin(4, srem(old(s)) as int),
         srem(old(s)) < 4 ==> r is Err,
+        final(s).nerr() >= old(s).nerr(),
+        r is Err ==> (final(s).nerr() > old(s).nerr() || srem(old(s)) < 4),
 { unimplemented!() }
 
 #[verifier::external_body]
@@ -173,6 +179,8 @@ pub fn vio_read_u64_le<S: VRead>(s: &mut S) -> (r: std::io::Result<u64>)
         r is Ok ==> srem(old(s)) >= 8 && final(s).pos() == old(s).pos() + 8 && r->Ok_0 == le_u64(old(s).data().subrange(old(s).pos() as int, old(s).pos() + 8int)),
         r is Err ==> old(s).pos() <= final(s).pos() <= old(s).pos() + smin(8, srem(old(s)) as int),
         srem(old(s)) < 8 ==> r is Err,
+        final(s).nerr() >= old(s).nerr(),
+        r is Err ==> (final(s).nerr() > old(s).nerr() || srem(old(s)) < 8),
 { unimplemented!() }
 
 // X.by_ref().take(N).read(buf)  [rewrite R8] = one read limited to min(N, buf.len()) bytes (Take::read)
